@@ -27,7 +27,7 @@ const int nsim_nprobes = PR_NPROBES;
 /* ------------------------------------------------------------------------------------------ */
 /* deadlines */
 static const int64_t dl_table[DL_NCODES] = {
-	0, -1000000000LL, -1, 0, 150, 600, 2500, 10000, 50000, 1000000LL, 1000000000LL
+	0, -1000000000LL, -1, 0, 150, 600, 2500, 10000, 50000, 1000000LL, 1000000000LL, 0
 };
 int64_t dl_offset_ns (int code) { return dl_table[code]; }
 static nsync_time time_from_ns (int64_t ns) {
@@ -95,6 +95,7 @@ static struct {
 	int late_child;               /* created while an ancestor might already be notified */
 	int64_t expiry_want;          /* minimum deadline on the creation-time chain, -1 none */
 	int born_expired;             /* its own deadline had already passed when it was created */
+	int pre_epoch;                /* created with a deadline before the epoch (modelled as deadline 0) */
 	/* causes inherited from ancestors that have been freed since (adoption keeps them relevant) */
 	int64_t inh_invoked, inh_returned, inh_dl;
 } NM[MAXNOTE];
@@ -641,7 +642,9 @@ static void create_note (int n) {
 	int fails_before = nsim_alloc_failures ();
 	if (p >= 0) { wait_created (p); parent = W.note[p]; }
 	if (p >= 0 && NM[p].created == 2) { NM[n].created = 2; return; }      /* the parent could not be constructed */
-	if (S.note_dl[n] != DL_NONE) dl_ns = nsim_start_ns () + dl_offset_ns (S.note_dl[n]);
+	if (S.note_dl[n] == DL_PREEPOCH) dl_ns = 0;
+	else if (S.note_dl[n] != DL_NONE) dl_ns = nsim_start_ns () + dl_offset_ns (S.note_dl[n]);
+	NM[n].pre_epoch = (S.note_dl[n] == DL_PREEPOCH);
 	NM[n].parent = p;
 	NM[n].dl_ns = dl_ns;
 	NM[n].late_child = 0;
@@ -653,7 +656,7 @@ static void create_note (int n) {
 	}
 	NM[n].expiry_want = note_chain_min_dl (n);
 	nsim_op_begin ("nsync_note_new");
-	W.note[n] = nsync_note_new (parent, dl_time (dl_ns));
+	W.note[n] = nsync_note_new (parent, NM[n].pre_epoch ? nsync_time_s_ns (-5, 250000000) : dl_time (dl_ns));
 	nsim_op_end ();
 	if (nsim_alloc_failures () != fails_before) {
 		nsim_probe (PR_ALLOC_FAILED);
@@ -731,6 +734,7 @@ static void op_note_expiry (op_t *o) {
 	nsim_op_end ();
 	want = NM[n].expiry_want;
 	if (NM[n].born_expired && NM[n].dl_ns >= 0 && nsync_time_cmp (e, time_from_ns (NM[n].dl_ns)) == 0) return;   /* born notified: own deadline reported */
+	if (NM[n].pre_epoch && nsync_time_cmp (e, nsync_time_s_ns (-5, 250000000)) == 0) return;
 	if (want < 0) {
 		if (nsync_time_cmp (e, nsync_time_no_deadline) != 0 && !(NM[n].late_child && nsync_time_cmp (e, nsync_time_zero) == 0)) {
 			VIOL ("C08", "expiry", "nsync_note_expiry(%d) is not no_deadline although no deadline exists on its chain", n);
